@@ -536,6 +536,12 @@ func showPlan(info nject.VerifBindInfo, idToPid map[int32]int) string {
 			}
 			parts += fmt.Sprintf(":u%d>%d", t, lookupPair(f.UpRmap, t))
 		}
+		for _, t := range dedupInts(f.Flows[4]) {
+			if t == noTypeTC {
+				continue
+			}
+			parts += fmt.Sprintf(":b%d>%d", t, lookupPair(f.BypassRmap, t))
+		}
 		if parts != "" {
 			fmt.Fprintf(&sb, " %d%s", pidOf(f), parts)
 		}
